@@ -55,7 +55,7 @@ REFS = {
     'mystic.math.discrete:product_measure.update':
         'def update(self, params):\n    pts = self.pts\n    _len = 2 * sum(pts)\n    if len(params) > _len:\n        params, values = (params[:_len], params[_len:])\n    pm = unflatten(params, pts)\n    zo = pm.count([])\n    self[:] = pm[:len(self) - zo] + self[len(pm) - zo:]\n    return self\n',
     'mystic.math.discrete:scenario.update':
-        'def update(self, params):\n    pts = self.pts\n    _len = 2 * sum(pts)\n    if len(params) > _len:\n        params, values = (params[:_len], params[_len:])\n        self.values = list(values) + self.values[len(values):]\n    pm = unflatten(params, pts)\n    zo = pm.count([])\n    self[:] = pm[:len(self) - zo] + self[len(pm) - zo:]\n    return self\n',
+        'def update(self, params):\n    pts = self.pts\n    _len = 2 * sum(pts)\n    if len(params) > _len:\n        params, values = (params[:_len], params[_len:])\n        self.values = list(values) + list(self.values[len(values):])\n    pm = unflatten(params, pts)\n    zo = pm.count([])\n    self[:] = pm[:len(self) - zo] + self[len(pm) - zo:]\n    return self\n',
     'mystic.math.discrete:product_measure.load':
         'def load(self, params, pts):\n    _len = 2 * sum(pts)\n    if len(params) > _len:\n        params, values = (params[:_len], params[_len:])\n    self.extend(unflatten(params, pts))\n    return self\n',
     'mystic.math.discrete:scenario.load':
